@@ -133,17 +133,16 @@ impl RegexMatcher {
     }
 }
 
-/// Does `regex` match all of `text`? (Regex::is_match() panics when the engine gives up.)
-fn matches_whole(regex: &Regex, text: &str) -> Result<bool, onig::Error> {
-    regex
-        .match_with_param(
-            text,
-            0,
-            SearchOptions::SEARCH_OPTION_NONE,
-            None,
-            MatchParam::default(),
-        )
-        .map(|matched| matched == Some(text.len()))
+/// Length of the match of `regex` at the start of `text`, if any. (Regex::is_match() panics
+/// when the engine gives up.)
+fn match_length(regex: &Regex, text: &str) -> Result<Option<usize>, onig::Error> {
+    regex.match_with_param(
+        text,
+        0,
+        SearchOptions::SEARCH_OPTION_NONE,
+        None,
+        MatchParam::default(),
+    )
 }
 
 /// Does the pattern contain a back-reference (an unescaped backslash followed by 1-9)?
@@ -158,20 +157,26 @@ fn has_back_reference(pattern: &str) -> bool {
 }
 
 impl Matcher for RegexMatcher {
-    fn matches(&self, file_info: &WalkEntry, _: &mut MatcherIO) -> bool {
+    fn matches(&self, file_info: &WalkEntry, matcher_io: &mut MatcherIO) -> bool {
         let path = file_info.path().to_string_lossy();
-        match matches_whole(&self.regex, &path) {
-            Ok(matched) => matched,
-            // Forcing the engine through every alternative can exhaust its backtracking
-            // limit on pathological patterns; the plain first match still decides most.
-            Err(e) => match self.unanchored.as_ref().map(|r| matches_whole(r, &path)) {
-                Some(Ok(matched)) => matched,
-                _ => {
-                    eprintln!("Error matching {path} against the regular expression: {e}");
-                    false
-                }
-            },
+        let error = match match_length(&self.regex, &path) {
+            Ok(matched) => return matched == Some(path.len()),
+            Err(e) => e,
+        };
+        // Forcing the engine through every alternative can exhaust its backtracking limit
+        // on pathological patterns. The plain first match still decides the path when it
+        // covers all of it, or when nothing matches at the start of the path at all; a
+        // shorter first match says nothing about the whole path.
+        if let Some(unanchored) = &self.unanchored {
+            match match_length(unanchored, &path) {
+                Ok(Some(length)) if length == path.len() => return true,
+                Ok(None) => return false,
+                _ => {}
+            }
         }
+        eprintln!("Error matching {path} against the regular expression: {error}");
+        matcher_io.set_exit_code(1);
+        false
     }
 }
 
